@@ -19,6 +19,8 @@ NAME = "session"
 CATS = common.CATS
 
 BODY = {"create": ("assert 5 == snapshot()", "assert 5 == snapshot(5)"),
+        # a created value whose repr is not Python code: the file also needs `from inline_snapshot import HasRepr`
+        "create_hr": ("assert NoRepr(1) == snapshot()", 'assert NoRepr(1) == snapshot(HasRepr(NoRepr, "<NoRepr 1>"))'),
         "fix": ("assert 5 == snapshot(4)", "assert 5 == snapshot(5)"),
         "trim": ("assert 2 <= snapshot(8)", "assert 2 <= snapshot(2)"),
         "update": ("assert 5 == snapshot(0+5)", "assert 5 == snapshot(5)")}
@@ -31,7 +33,8 @@ def gen(rng, tier, shape=None):
         return {"pending": pending, "cli": [c for c in CATS if rng.random() < 0.45], "env": None, "pyd": None, "pyd_tui": None,
                 "shortcut": None, "tty": False, "ci": None, "xdist": None, "answers": {c: False for c in CATS}, "skip": False,
                 "xfail": False, "dup": rng.random() < 0.3, "unknown": False, "empty_no": False,
-                "split": rng.random() < 0.5}      # the pending categories are spread over two test files
+                "split": rng.random() < 0.5,      # the pending categories are spread over two test files
+                "hasrepr": rng.random() < 0.35}   # the created value needs HasRepr (and its import)
     pending = [c for c in CATS if rng.random() < 0.75]
     cats = [c for c in CATS if rng.random() < 0.4]
     mode = rng.choice([[], [], ["report"], ["review"], ["short-report"], ["disable"]])
@@ -67,6 +70,14 @@ def gen(rng, tier, shape=None):
     return case
 
 
+NOREPR = ["class NoRepr:", "    def __init__(self, i): self.i = i", "    def __repr__(self): return f'<NoRepr {self.i}>'",
+          "    def __eq__(self, o): return (o.i == self.i) if isinstance(o, NoRepr) else NotImplemented", ""]
+
+
+def body_of(case, c):
+    return BODY["create_hr"] if c == "create" and case.get("hasrepr") else BODY[c]
+
+
 def split_cats(case):
     """(categories in test_a.py, categories in test_b.py)"""
     if not case.get("split"):
@@ -75,19 +86,19 @@ def split_cats(case):
 
 
 def project_b(case):
-    lines = ["from inline_snapshot import snapshot", "import pytest", ""]
+    lines = ["from inline_snapshot import snapshot", "import pytest", ""] + (NOREPR if case.get("hasrepr") else [])
     for c in split_cats(case)[1]:
         for i in range(2 if case["dup"] else 1):
-            lines += [f"def test_{c}_{i}():", "    " + BODY[c][0], ""]
+            lines += [f"def test_{c}_{i}():", "    " + body_of(case, c)[0], ""]
     return "\n".join(lines)
 
 
 def project(case):
-    lines = ["from inline_snapshot import snapshot", "import pytest", ""]
+    lines = ["from inline_snapshot import snapshot", "import pytest", ""] + (NOREPR if case.get("hasrepr") else [])
     for c in split_cats(case)[0]:
         copies = 2 if case["dup"] else 1
         for i in range(copies):
-            lines += [f"def test_{c}_{i}():", "    " + BODY[c][0], ""]
+            lines += [f"def test_{c}_{i}():", "    " + body_of(case, c)[0], ""]
         if case["xfail"]:
             lines += ["@pytest.mark.xfail", f"def test_{c}_x():", "    " + BODY[c][0], ""]
     if case["xfail"]:
@@ -186,7 +197,7 @@ def applied_from(text, case):
         n = 0
         for i in range(copies):
             body = text.split(f"def test_{c}_{i}():")[1].split("def test_")[0].split("@pytest")[0]
-            if BODY[c][1] in body and BODY[c][0] not in body:
+            if body_of(case, c)[1] in body and body_of(case, c)[0] not in body:
                 n += 1
         if n == copies:
             res.add(c)
